@@ -553,8 +553,10 @@ static iwrc open_store(const char *path, int wal, int trunc, unsigned cpbuf, IWK
 // F25 detector: the log listener acknowledges a growth of the file ("handled") that nobody performs.
 // Everything after that point is undefined (stores beyond the mapping), so the case stops here with a marker.
 static iwrc (*g_orig_onresize)(struct iwdlsnr*, off_t, off_t, int, bool*);
+static atomic_int g_nresize;
 static iwrc hook_onresize(struct iwdlsnr *self, off_t osize, off_t nsize, int flags, bool *handled) {
   iwrc rc = g_orig_onresize(self, osize, nsize, flags, handled);
+  if (!rc && *handled && nsize > osize) atomic_fetch_add(&g_nresize, 1);
   if (!rc && *handled && nsize > osize && g_kv && (struct iwdlsnr*) g_kv->dlsnr == self) {
     long long fs = hxs_exf_fsize(hxs_fsm_pool(&g_kv->fsm));
     if (fs != (long long) nsize) {
@@ -567,6 +569,7 @@ static iwrc hook_onresize(struct iwdlsnr *self, off_t osize, off_t nsize, int fl
 }
 static void install_resize_hook(IWKV kv) {
   if (!kv->dlsnr) return;
+  atomic_store(&g_nresize, 0);
   g_orig_onresize = kv->dlsnr->onresize;
   kv->dlsnr->onresize = hook_onresize;
 }
@@ -722,7 +725,7 @@ int main(int argc, char **argv) {
     if (!strcmp(line, "obs")) {
       char ob[4096]; hxs_wal_obs(g_kv, ob, sizeof ob);
       IWFS_EXT *pool = hxs_fsm_pool(&g_kv->fsm);
-      printf("obs stage=%d %s fsize=%lld map=%lld\n", hxs_wal_stage(g_kv), ob, hxs_exf_fsize(pool), hxs_exf_maplen(pool));
+      printf("obs stage=%d %s fsize=%lld map=%lld nres=%d\n", hxs_wal_stage(g_kv), ob, hxs_exf_fsize(pool), hxs_exf_maplen(pool), atomic_load(&g_nresize));
       continue;
     }
     if (!strcmp(line, "dump")) {
